@@ -1,0 +1,92 @@
+//go:build verif
+
+package cniutil
+
+// Contracts for the verification framework in /verif (comment-only).
+
+// ---- isolation of requests (C12): what a plugin receives depends only on the pod and the static
+// configuration. The configuration maps handed to CmdAdd are the daemon's static network
+// configurations (pkg/galaxy resolveNetworks hands out the maps of g.netConf themselves), so a
+// request must leave every map[string]interface{} that existed before it unchanged: the frame
+// below lists the argument string of the request, the plugin-invocation trace and fresh objects only.
+
+// the plugin boundary (invoke.ExecPlugin*, trusted) and its ghost invocation trace CniN/CniCmd/CniIf are
+// declared in /verif/contracts/external/cni.spec
+
+//@ func [C12,C18] getNetworkType
+//@   modifies fresh elemsof(interface{})
+//@ func [C12,C18] DelegateAdd
+//@   requires args != nil
+//@   modifies CniN, CniCmd, CniIf, fresh invoke.Args.*, fresh invoke.DefaultExec.*, fresh invoke.RawExec.*, fresh elemsof(interface{})
+//@   ensures [C12:add-invokes-at-most-one-plugin] (CniN == old(CniN) && CniCmd == old(CniCmd) && CniIf == old(CniIf)) || (CniN == old(CniN) + 1 && CniCmd == old(CniCmd)[old(CniN) := "ADD"] && CniIf == old(CniIf)[old(CniN) := ifName])
+//@   ensures [C12:add-success-invoked-plugin] result1 == nil ==> CniN == old(CniN) + 1
+//@ func [C12,C18] DelegateDel
+//@   requires args != nil
+//@   modifies CniN, CniCmd, CniIf, fresh invoke.Args.*, fresh invoke.DefaultExec.*, fresh invoke.RawExec.*, fresh elemsof(interface{})
+//@   ensures [C12:del-invokes-at-most-one-plugin] (CniN == old(CniN) && CniCmd == old(CniCmd) && CniIf == old(CniIf)) || (CniN == old(CniN) + 1 && CniCmd == old(CniCmd)[old(CniN) := "DEL"] && CniIf == old(CniIf)[old(CniN) := ifName])
+//@   ensures [C12:del-success-invoked-plugin] result == nil ==> CniN == old(CniN) + 1
+
+// ---- the per-container state file (trusted: file I/O and the JSON round trip of []*NetworkInfo).
+// SavedIDs: container ids with a state file; SavedLen/SavedIf: number of saved networks and the
+// interface name of each, in file order.
+//@ ghost SavedIDs mset[string]
+//@ ghost SavedLen mmap[string]mint
+//@ ghost SavedIf mmap[string]mmap[mint]string
+//@ func saveNetworkInfo trusted
+//@   modifies SavedIDs, SavedLen, SavedIf
+//@   ensures result == nil ==> SavedIDs == old(SavedIDs)[containerID := true] && SavedLen == old(SavedLen)[containerID := len(infos)]
+//@   ensures result == nil ==> forall i int :: 0 <= i && i < len(infos) ==> SavedIf[containerID][i] == infos[i].IfName
+//@   ensures forall c string :: c != containerID ==> (c in SavedIDs) == old(c in SavedIDs) && SavedLen[c] == old(SavedLen[c]) && SavedIf[c] == old(SavedIf[c])
+//@ func consumeNetworkInfo trusted
+//@   modifies SavedIDs, fresh NetworkInfo.*, fresh elemsof(*NetworkInfo), fresh mapsof(map[string]interface{}), fresh mapsof(map[string]string)
+//@   ensures SavedIDs == old(SavedIDs)[containerID := false]
+//@   ensures !old(containerID in SavedIDs) ==> result1 != nil && isNotExist(result1)
+//@   ensures result1 != nil && isNotExist(result1) ==> !old(containerID in SavedIDs)
+//@   ensures result1 == nil ==> len(result0) == SavedLen[containerID] && (len(result0) == 0 || fresh(result0))
+//@   ensures result1 == nil ==> forall i int {result0[i]} :: 0 <= i && i < len(result0) ==> result0[i] != nil && fresh(result0[i]) && result0[i].IfName == SavedIf[containerID][i]
+
+//@ func [C12,C18] BuildCNIArgs
+//@   modifies fresh elemsof(string), fresh elemsof(interface{})
+//@   loop 0 invariant true
+//@ func [C12,C18] reverse
+//@   modifies elems(infos)
+//@   loop 0 invariant 0 <= i && j < len(infos)
+
+// ---- ADD (C12): on success exactly the plugins of the given networks were invoked with ADD, in the
+// given order, the i-th on the interface of the i-th entry; the request leaves every configuration
+// map that existed before it unchanged (frame: no map[string]interface{} outside fresh ones).
+//@ func [C12,C18] CmdAdd
+//@   requires cmdArgs != nil
+//@   requires forall i int :: 0 <= i && i < len(networkInfos) ==> networkInfos[i] != nil
+//@   modifies skel.CmdArgs.Args, CniN, CniCmd, CniIf, SavedIDs, SavedLen, SavedIf, fresh mapsof(map[string]interface{}), fresh mapsof(map[string]string), fresh elemsof(interface{}), fresh elemsof(string), fresh elemsof(*NetworkInfo), fresh NetworkInfo.*, fresh invoke.Args.*, fresh invoke.DefaultExec.*, fresh invoke.RawExec.*
+//@   ensures [C12:add-success-invokes-all-in-order] result1 == nil ==> CniN == old(CniN) + len(networkInfos) && forall k int {CniCmd[k]} {CniIf[k]} :: old(CniN) <= k && k < CniN ==> CniCmd[k] == "ADD" && CniIf[k] == networkInfos[k - old(CniN)].IfName
+//@   ensures [C12:add-never-invokes-add-after-del] forall k int, l int {CniCmd[k], CniCmd[l]} :: old(CniN) <= k && k < l && l < CniN && CniCmd[l] == "ADD" ==> CniCmd[k] == "ADD"
+//@   loop 0 invariant cmdArgs != nil && 0 <= idx && idx <= len(networkInfos) && CniN == old(CniN) + idx
+//@   loop 0 invariant forall k int {CniCmd[k]} {CniIf[k]} :: old(CniN) <= k && k < old(CniN) + idx ==> CniCmd[k] == "ADD" && CniIf[k] == networkInfos[k - old(CniN)].IfName
+//@   loop 0 invariant cmdArgs.ContainerID in SavedIDs && SavedLen[cmdArgs.ContainerID] == len(networkInfos)
+//@   loop 1 invariant true
+
+// ---- DEL (C12): a DEL for a container without state (a repeated DEL) invokes nothing and succeeds;
+// a successful DEL has invoked the saved networks' plugins with DEL in reverse order of the file
+// and consumed the state; whatever happens only DEL invocations are made.
+//@ func [C12,C18] CmdDel
+//@   requires cmdArgs != nil
+//@   requires [C18] -1 <= lastIdx && (cmdArgs.ContainerID in SavedIDs ==> lastIdx < SavedLen[cmdArgs.ContainerID])
+//@   modifies skel.CmdArgs.Args, CniN, CniCmd, CniIf, SavedIDs, SavedLen, SavedIf, fresh mapsof(map[string]interface{}), fresh mapsof(map[string]string), fresh elemsof(interface{}), fresh elemsof(string), fresh elemsof(*NetworkInfo), fresh NetworkInfo.*, fresh invoke.Args.*, fresh invoke.DefaultExec.*, fresh invoke.RawExec.*
+//@   let cid = cmdArgs.ContainerID
+//@   let had = cmdArgs.ContainerID in SavedIDs
+//@   let savedLen = SavedLen[cmdArgs.ContainerID]
+//@   let savedIf = SavedIf[cmdArgs.ContainerID]
+//@   let n = lastIdx == -1 ? SavedLen[cmdArgs.ContainerID] : lastIdx + 1
+//@   ensures [C12:repeated-del-invokes-nothing] !had ==> result == nil && CniN == old(CniN)
+//@   ensures [C12:del-success-reverse-order] result == nil && had ==> CniN == old(CniN) + n && forall j int :: 0 <= j && j < n ==> CniCmd[old(CniN) + j] == "DEL" && CniIf[old(CniN) + j] == savedIf[n - 1 - j]
+//@   ensures [C12:del-success-consumes-state] result == nil ==> !(cid in SavedIDs)
+//@   ensures [C12:del-invokes-only-del] CniN >= old(CniN) && (had ==> CniN <= old(CniN) + n) && forall k int {CniCmd[k]} :: old(CniN) <= k && k < CniN ==> CniCmd[k] == "DEL"
+//@   ensures [C12:del-leaves-earlier-trace] forall k int {CniCmd[k]} {CniIf[k]} :: k < old(CniN) ==> CniCmd[k] == old(CniCmd[k]) && CniIf[k] == old(CniIf[k])
+//@   loop 0 invariant cmdArgs != nil && -1 <= idx && idx <= n - 1 && n <= len(networkInfos) && len(networkInfos) == savedLen
+//@   loop 0 invariant CniN >= old(CniN) && CniN <= old(CniN) + (n - 1 - idx) && forall k int :: old(CniN) <= k && k < CniN ==> CniCmd[k] == "DEL"
+//@   loop 0 invariant forall k int {CniCmd[k]} {CniIf[k]} :: k < old(CniN) ==> CniCmd[k] == old(CniCmd[k]) && CniIf[k] == old(CniIf[k])
+//@   loop 0 invariant len(errorSet) == 0 ==> CniN == old(CniN) + (n - 1 - idx) && forall j int :: 0 <= j && j < n - 1 - idx ==> CniIf[old(CniN) + j] == networkInfos[n - 1 - j].IfName
+//@   loop 0 invariant forall i int :: 0 <= i && i < len(networkInfos) ==> networkInfos[i] != nil && networkInfos[i].IfName == savedIf[i]
+//@   loop 0 invariant !(cid in SavedIDs) && cmdArgs.ContainerID == cid && len(errorSet) == len(fails)
+//@   loop 0 decreases idx + 1
